@@ -1,169 +1,212 @@
-(* C16 — lemmas about coq/C16/Model.v *)
+(* C16 — lemmas about coq/C16/Model.v, part B: global invariants over every schedule, sequential runs, witnesses *)
 From Coq Require Import List Arith Bool Lia.
 Import ListNotations.
-From GU Require Import C16.Model.
+From GU Require Import C16.Model C16.ProofsA.
 
 (* ------------------------------------------------------------------------------------------------ *)
-(* association lists                                                                                  *)
+(* global invariant over every schedule                                                               *)
 
-Lemma fname_eqb_refl : forall k, fname_eqb k k = true.
-Proof. destruct k; simpl; auto using Nat.eqb_refl. Qed.
+Definition Sv (cl : list client) (v : ver) : Prop :=
+  exists n L, nth_error cl n = Some L /\ started_ver L = Some v.
 
-Lemma fname_eqb_eq : forall a b, fname_eqb a b = true -> a = b.
-Proof. destruct a, b; simpl; intros H; try discriminate; auto; apply Nat.eqb_eq in H; subst; auto. Qed.
-
-Lemma aget_adel {V} : forall k k' (l : list (fname * V)),
-  aget k (adel k' l) = if fname_eqb k k' then None else aget k l.
+Lemma nth_error_upd {A} : forall (l : list A) c x n,
+  nth_error (upd c x l) n =
+  if Nat.eqb n c then match nth_error l c with Some _ => Some x | None => None end else nth_error l n.
 Proof.
-  intros k k' l. induction l as [|[k0 v] r IH]; simpl.
-  - destruct (fname_eqb k k'); auto.
-  - destruct (fname_eqb k' k0) eqn:E0.
-    + apply fname_eqb_eq in E0. subst k0. rewrite IH. destruct (fname_eqb k k'); auto.
-    + simpl. destruct (fname_eqb k k0) eqn:E1.
-      * apply fname_eqb_eq in E1. subst k0. destruct (fname_eqb k k') eqn:E2; auto.
-        apply fname_eqb_eq in E2. subst k'. rewrite fname_eqb_refl in E0. discriminate.
-      * exact IH.
+  induction l as [|y r IH]; intros c x n.
+  - simpl. destruct c; simpl; destruct n; simpl; auto; destruct (Nat.eqb _ _); auto.
+  - destruct c, n; simpl; auto.
 Qed.
 
-Lemma aget_aset {V} : forall k k' (v : V) l,
-  aget k (aset k' v l) = if fname_eqb k k' then Some v else aget k l.
-Proof. intros. unfold aset. simpl. rewrite aget_adel. destruct (fname_eqb k k'); auto. Qed.
+Lemma started_keep : forall L L' v,
+  c_op L' = c_op L -> (c_pc L <> SInit -> c_pc L' <> SInit) -> started_ver L = Some v -> started_ver L' = Some v.
+Proof.
+  unfold started_ver. intros L L' v Eo Ep E. rewrite Eo. destruct (c_op L); try discriminate.
+  destruct (c_pc L) eqn:Ec; try discriminate;
+  (assert (Hn : c_pc L' <> SInit) by (apply Ep; congruence); destruct (c_pc L'); congruence).
+Qed.
+
+Lemma Sv_mono : forall cl c L L' v,
+  nth_error cl c = Some L -> c_op L' = c_op L -> (c_pc L <> SInit -> c_pc L' <> SInit) ->
+  Sv cl v -> Sv (upd c L' cl) v.
+Proof.
+  intros cl c L L' v Hc Eo Ep (n & L0 & Hn & Hs).
+  destruct (Nat.eqb n c) eqn:E.
+  - apply Nat.eqb_eq in E; subst n. exists c, L'. rewrite nth_error_upd, Nat.eqb_refl, Hc. split; auto.
+    rewrite Hc in Hn. inversion Hn; subst. eapply started_keep; eauto.
+  - exists n, L0. rewrite nth_error_upd, E. auto.
+Qed.
+
+Definition Inv (st : state) : Prop :=
+  files_ok (Sv (s_cl st)) (s_rem st) /\
+  forall n L, nth_error (s_cl st) n = Some L -> client_ok (Sv (s_cl st)) L.
+
+Lemma started_own_Sv : forall cl n L, nth_error cl n = Some L -> started_own (Sv cl) L.
+Proof.
+  intros cl n L Hn v u Eo Ep. exists n, L. split; auto. unfold started_ver. rewrite Eo.
+  destruct (c_pc L); congruence.
+Qed.
+
+Lemma Inv_gstep : forall P st l, (forall d, p_unzip_other P d = None) -> Inv st -> Inv (gstep P st l).
+Proof.
+  intros P [R cl] l Hz [HF HC]. simpl in *. destruct l as [c f|]; simpl.
+  - destruct (nth_error cl c) as [L|] eqn:Hc; [|split; auto].
+    destruct (step P c f R L) as [R' L'] eqn:Hs.
+    destruct (step_prov (Sv cl) P c f R L R' L' Hz Hs HF (HC _ _ Hc) (started_own_Sv _ _ _ Hc)) as (F' & C' & Eo & Ep).
+    assert (M : forall v, Sv cl v -> Sv (upd c L' cl) v) by (intros; eapply Sv_mono; eauto).
+    split; simpl.
+    + eapply files_ok_mono; eauto.
+    + intros n L0 Hn. rewrite nth_error_upd in Hn. destruct (Nat.eqb n c) eqn:E.
+      * rewrite Hc in Hn. inversion Hn; subst. eapply client_ok_mono; eauto.
+      * eapply client_ok_mono; eauto.
+  - split; simpl; auto.
+Qed.
+
+Lemma Inv_init : forall P ops, Inv (init_state P ops).
+Proof.
+  intros P ops. split; simpl.
+  - intros k d t E. discriminate.
+  - intros n L Hn. apply nth_error_In in Hn. apply in_map_iff in Hn. destruct Hn as (o & <- & _).
+    unfold client_ok, new_client; simpl. repeat split; try (intros; discriminate).
+    + constructor.
+    + intros i d E. destruct o; simpl in E; try discriminate. destruct (p_kind P); discriminate.
+    + intros [E|[_ E]]; destruct o; simpl in E; try discriminate; destruct (p_kind P); discriminate.
+Qed.
+
+Lemma Inv_run : forall P sched st, (forall d, p_unzip_other P d = None) -> Inv st -> Inv (run P st sched).
+Proof.
+  intros P sched. induction sched as [|l r IH]; intros st Hz HI; simpl; auto.
+  apply IH; auto. apply Inv_gstep; auto.
+Qed.
+
+Lemma Sv_stored : forall cl v, Sv cl v -> In v (stored cl).
+Proof.
+  induction cl as [|L r IH]; intros v (n & L0 & Hn & Hs).
+  - destruct n; discriminate.
+  - simpl. destruct n; simpl in Hn.
+    + inversion Hn; subst. rewrite Hs. left; auto.
+    + destruct (started_ver L); [right|]; apply IH; exists n, L0; auto.
+Qed.
+
+Lemma fetch_installs_stored_version_l : forall P ops sched,
+  (forall d, p_unzip_other P d = None) ->
+  let st := run P (init_state P ops) sched in
+  forall n L, nth_error (s_cl st) n = Some L -> fetch_ok L = true ->
+  exists v, c_dest L = DInst v /\ In v (stored (s_cl st)).
+Proof.
+  intros P ops sched Hz st n L Hn Hf.
+  destruct (Inv_run P sched (init_state P ops) Hz (Inv_init P ops)) as [_ HC].
+  destruct (HC n L Hn) as (_ & _ & Hd & Hok).
+  unfold fetch_ok in Hf. destruct (c_op L) eqn:Eo; try discriminate. destruct (c_pc L) eqn:Ep; try discriminate.
+  destruct r; try discriminate.
+  destruct Hok as [v Ev]; [right; auto|]. exists v. split; auto. apply Sv_stored. auto.
+Qed.
 
 (* ------------------------------------------------------------------------------------------------ *)
-(* provenance of data: every chunk stems from a version in S                                          *)
+(* the entry lock serialises the transfers of the mutable cache (repaired code, sound lock)           *)
 
-Section Provenance.
-Variable S : ver -> Prop.
+Definition LockInv (st : state) : Prop :=
+  forall n L, nth_error (s_cl st) n = Some L ->
+    (in_critical L = true -> r_lock (s_rem st) = LHeld n true) /\ c_pc L <> FList.
 
-Definition ver_of (ch : chunk) : ver := fst (fst ch).
-Definition data_ok (d : data) : Prop := Forall (fun ch => S (ver_of ch)) d.
-Definition fl_ok (l : list (fname * (data * nat))) : Prop := forall k d t, aget k l = Some (d, t) -> data_ok d.
-Definition files_ok (R : remote) : Prop := fl_ok (r_files R).
-Definition client_ok (L : client) : Prop :=
-  data_ok (c_tmp L)
-  /\ (forall i d, c_pc L = SFbWrite i d -> data_ok d)
-  /\ (forall v, c_dest L = DInst v -> S v)
-  /\ ((c_pc L = FUnlock Ok \/ (c_op L = OFetch /\ c_pc L = Done Ok)) -> exists v, c_dest L = DInst v).
-
-Lemma data_ok_nil : data_ok [].
-Proof. constructor. Qed.
-
-Lemma data_ok_firstn : forall n d, data_ok d -> data_ok (firstn n d).
-Proof. unfold data_ok. induction n; destruct d; simpl; intros H; auto. inversion H; subst. constructor; auto. Qed.
-
-Lemma data_ok_skipn : forall n d, data_ok d -> data_ok (skipn n d).
-Proof. unfold data_ok. induction n; destruct d; simpl; intros H; auto. inversion H; subst. auto. Qed.
-
-Lemma data_ok_write_at : forall i ch d, data_ok d -> S (ver_of ch) -> data_ok (write_at i ch d).
+Lemma LockInv_gstep : forall P st c f,
+  p_kind P = Mutable -> p_defer_first P = false -> LockInv st -> LockInv (gstep P st (Step c f)).
 Proof.
-  intros. unfold write_at, data_ok. apply Forall_app. split.
-  - apply data_ok_firstn; auto.
-  - constructor; auto. apply data_ok_skipn; auto.
+  intros P [R cl] c f HK HD HI. unfold LockInv in *. simpl in *.
+  destruct (nth_error cl c) as [L|] eqn:Hc; [|exact HI].
+  destruct (step P c f R L) as [R' L'] eqn:Hs. simpl.
+  destruct (HI c L Hc) as [Hcr HnL].
+  destruct (step_lock P c f R L R' L' HK HD Hs Hcr HnL) as (A & B & C).
+  intros n L0 Hn. rewrite nth_error_upd in Hn. destruct (Nat.eqb n c) eqn:E.
+  - apply Nat.eqb_eq in E; subst n. rewrite Hc in Hn. inversion Hn; subst. auto.
+  - apply Nat.eqb_neq in E. destruct (HI n L0 Hn) as [Hcr0 Hn0]. split; auto.
 Qed.
 
-Lemma data_ok_nth : forall d i ch, data_ok d -> nth_error d i = Some ch -> S (ver_of ch).
-Proof. unfold data_ok. intros d i ch H E. rewrite Forall_forall in H. eauto using nth_error_In. Qed.
-
-Lemma ver_of_half : forall ch, ver_of (half ch) = ver_of ch.
-Proof. intros [[v i] w]. reflexivity. Qed.
-
-Lemma files_ok_content : forall R k d, files_ok R -> content k R = Some d -> data_ok d.
+Lemma LockInv_init : forall P ops, p_kind P = Mutable -> LockInv (init_state P ops).
 Proof.
-  unfold files_ok, fl_ok, content. intros R k d H E. destruct (aget k (r_files R)) as [[d' t]|] eqn:G; simpl in E; inversion E; subst. eauto.
+  intros P ops HK n L Hn. simpl in Hn. apply nth_error_In in Hn. apply in_map_iff in Hn. destruct Hn as (o & <- & _).
+  destruct o; unfold new_client, init_pc, in_critical; cbn [c_pc]; rewrite ?HK; split; intros; congruence.
 Qed.
 
-Lemma fl_ok_aset : forall l k d t, fl_ok l -> data_ok d -> fl_ok (aset k (d, t) l).
+Lemma LockInv_run : forall P sched st,
+  p_kind P = Mutable -> p_defer_first P = false -> ~ In BreakLock sched -> LockInv st -> LockInv (run P st sched).
 Proof.
-  unfold fl_ok. intros l k d t H Hd k' d' t' E. rewrite aget_aset in E.
-  destruct (fname_eqb k' k); [inversion E; subst; auto | eauto].
+  intros P sched. induction sched as [|l r IH]; intros st HK HD Hnb HI; simpl; auto.
+  apply IH; auto.
+  - intro X. apply Hnb. right. exact X.
+  - destruct l as [c f|]; [apply LockInv_gstep; auto | exfalso; apply Hnb; left; reflexivity].
 Qed.
 
-Lemma fl_ok_adel : forall l k, fl_ok l -> fl_ok (adel k l).
+Lemma mutable_transfers_exclusive_l : forall P ops sched,
+  p_kind P = Mutable -> p_defer_first P = false -> ~ In BreakLock sched ->
+  let st := run P (init_state P ops) sched in
+  forall n m Ln Lm, nth_error (s_cl st) n = Some Ln -> nth_error (s_cl st) m = Some Lm ->
+    in_critical Ln = true -> in_critical Lm = true -> n = m /\ r_lock (s_rem st) = LHeld n true.
 Proof.
-  unfold fl_ok. intros l k H k' d' t' E. rewrite aget_adel in E.
-  destruct (fname_eqb k' k); [discriminate | eauto].
+  intros P ops sched HK HD Hnb st n m Ln Lm Hn Hm Cn Cm.
+  pose proof (LockInv_run P sched (init_state P ops) HK HD Hnb (LockInv_init P ops HK)) as HI.
+  destruct (HI n Ln Hn) as [A _]. destruct (HI m Lm Hm) as [B _].
+  specialize (A Cn). specialize (B Cm). fold st in A, B. rewrite A in B. inversion B. auto.
 Qed.
-
-Lemma files_ok_aget : forall R k d t, files_ok R -> aget k (r_files R) = Some (d, t) -> data_ok d.
-Proof. unfold files_ok, fl_ok. eauto. Qed.
-
-Lemma unzip_prov : forall P d v, (forall d', p_unzip_other P d' = None) -> data_ok d -> unzip P d = Some v -> S v.
-Proof.
-  intros P d v Hz Hd E. unfold unzip in E. destruct d as [|[[v0 i0] w0] r].
-  - rewrite Hz in E. discriminate.
-  - destruct (data_eqb _ _).
-    + inversion E; subst. inversion Hd; subst. auto.
-    + rewrite Hz in E. discriminate.
-Qed.
-
-End Provenance.
-
-Lemma data_ok_mono : forall (S S' : ver -> Prop) d, (forall v, S v -> S' v) -> data_ok S d -> data_ok S' d.
-Proof. unfold data_ok. intros S S' d H Hd. eapply Forall_impl; [|exact Hd]. simpl. auto. Qed.
-
-Lemma files_ok_mono : forall (S S' : ver -> Prop) R, (forall v, S v -> S' v) -> files_ok S R -> files_ok S' R.
-Proof. unfold files_ok, fl_ok. intros. eauto using data_ok_mono. Qed.
-
-Lemma client_ok_mono : forall (S S' : ver -> Prop) L, (forall v, S v -> S' v) -> client_ok S L -> client_ok S' L.
-Proof. unfold client_ok. intros S S' L H (A & B & C & D). repeat split; eauto using data_ok_mono. Qed.
 
 (* ------------------------------------------------------------------------------------------------ *)
-(* case analysis of one micro-step                                                                    *)
+(* sequential use and concrete witnesses                                                              *)
 
-Ltac break_in H :=
-  match type of H with
-  | context [match ?x with _ => _ end] =>
-      lazymatch x with
-      | context [match _ with _ => _ end] => fail
-      | _ => destruct x eqn:?
-      end
+Fixpoint seq_results (P : params) (n : nat) (R : remote) (ops : list (opk * option (lbl * fkind))) : list (ores * dest) :=
+  match ops with
+  | [] => []
+  | (o, t) :: r => let '(R', L') := run_alone P n t 200 R (new_client P o) in (res_of L', c_dest L') :: seq_results P (S n) R' r
   end.
 
-Ltac step_cases H :=
-  unfold step in H;
-  match type of H with context [finished ?L] => destruct (finished L) eqn:? end;
-  [ | match type of H with context [match ?f with NoF => _ | _ => _ end] => destruct f end;
-      unfold die, store_step, fetch_step, clean_step, lock_step, unlock_step, hash_write, ffail in H;
-      repeat (break_in H; simpl in H) ];
-  inversion H; subst; clear H.
+Definition P_of (k : kind) (defer_first rehash : bool) : params := mkParams k (fun _ => 1) defer_first rehash (fun _ => None).
 
-Definition started_own (S : ver -> Prop) (L : client) : Prop :=
-  forall v u, c_op L = OStore v u -> c_pc L <> SInit -> S v.
+(* D21: the code before the fix (no re-hash).  Store(v1) over v0 while the side file cannot be opened: Store reports
+   success, the following fault-free Fetch fails. *)
+Lemma stale_hash_without_rehash :
+  map fst (seq_results (P_of Mutable false false) 0 remote0
+             [(OStore 0 0, None); (OStore 1 1, Some (LHashOpen, KErr)); (OFetch, None)]) = [ROk; ROk; RErr].
+Proof. vm_compute. reflexivity. Qed.
 
-Ltac norm_files :=
-  unfold files_ok; cbn [r_files put_file put_file_at del_file set_lock set_hash del_hash set_dir].
+Lemma stale_hash_with_rehash :
+  seq_results (P_of Mutable false true) 0 remote0
+             [(OStore 0 0, None); (OStore 1 1, Some (LHashOpen, KErr)); (OFetch, None)]
+  = [(ROk, DUntouched); (ROk, DUntouched); (ROk, DInst 1)].
+Proof. vm_compute. reflexivity. Qed.
 
-(* the local step lemma: data written or installed by a step stems from S *)
-Lemma step_prov : forall (S : ver -> Prop) P c f R L R' L',
-  (forall d, p_unzip_other P d = None) ->
-  step P c f R L = (R', L') ->
-  files_ok S R -> client_ok S L -> started_own S L ->
-  files_ok S R' /\ client_ok S L' /\ c_op L' = c_op L /\ (c_pc L <> SInit -> c_pc L' <> SInit).
-Proof.
-  intros S P c f R L R' L' Hz H HF (Ht & Hfb & Hd & Hok) Hown.
-  assert (HF' : fl_ok S (r_files R)) by exact HF.
-  step_cases H.
-  all: split; [ norm_files;
-      repeat first [ assumption | apply fl_ok_adel | apply fl_ok_aset | apply data_ok_nil | apply data_ok_write_at
-                   | (eapply files_ok_content; [exact HF | eassumption])
-                   | (eapply files_ok_aget; [exact HF | eassumption])
-                   | (rewrite ver_of_half)
-                   | (eapply Hfb; reflexivity)
-                   | (eapply data_ok_nth; [ | eassumption])
-                   | (cbn [ver_of fst]; eapply Hown; [eassumption | congruence]) ] | ].
-  all: split; [ unfold client_ok; cbn [c_tmp c_pc c_dest c_op at_pc with_src with_tmp with_dest];
-      repeat split;
-      first [ assumption
-            | solve [intros; congruence]
-            | solve [intros ? ? E; inversion E; subst; eapply files_ok_content; [exact HF | eassumption]]
-            | solve [intros ? ? E; inversion E; subst; eapply Hfb; reflexivity]
-            | solve [intros ? ? E; eapply Hfb; congruence]
-            | solve [intros ? ? E; rewrite Heqp in E; inversion E; subst; eapply Hfb; reflexivity]
-            | solve [intros ? E; inversion E; subst; eapply unzip_prov; eassumption]
-            | solve [eapply files_ok_content; [exact HF | eassumption]]
-            | solve [intros [E|[E1 E2]]; try congruence; eauto]
-            | solve [intros [E|[E1 E2]]; apply Hok; first [left; congruence | right; split; congruence]]
-            | idtac ] | ].
-  all: try (split; [ cbn [c_op at_pc with_src with_tmp with_dest]; first [reflexivity | assumption | congruence]
-                   | cbn [c_pc at_pc with_src with_tmp with_dest]; congruence ]).
-Qed.
+Definition steps (c k : nat) : list label := repeat (Step c NoF) k.
+
+(* D15: the code before the fix.  Client 1 (Store v1) is inside its critical section; client 2 (Fetch) times out on
+   the lock and its deferred Unlock removes client 1's lock. *)
+Definition d15_sched : list label := steps 0 30 ++ steps 1 5 ++ steps 2 3 ++ [Step 2 FErr].
+Definition d15_ops : list opk := [OStore 0 0; OStore 1 1; OFetch].
+
+Lemma defer_first_frees_foreign_lock :
+  let st := run (P_of Mutable true true) (init_state (P_of Mutable true true) d15_ops) d15_sched in
+  option_map in_critical (nth_error (s_cl st) 1) = Some true /\ r_lock (s_rem st) = LFree.
+Proof. vm_compute. split; reflexivity. Qed.
+
+Lemma defer_after_keeps_foreign_lock :
+  let st := run (P_of Mutable false true) (init_state (P_of Mutable false true) d15_ops) d15_sched in
+  option_map in_critical (nth_error (s_cl st) 1) = Some true /\ r_lock (s_rem st) = LHeld 1 true.
+Proof. vm_compute. split; reflexivity. Qed.
+
+(* the zip-integrity hypothesis is necessary: if some proper prefix of a package happens to unzip (here: the first of
+   the two writes of package 0 unzips to a tree 7), a crash of the FIRST Store after that write lets Fetch succeed with 7 *)
+Definition P_prefix_unzips : params :=
+  mkParams Mutable (fun _ => 1) false true
+    (fun d => match d with [(0, 0, true)] => Some 7 | _ => None end).
+
+Lemma prefix_unzips_witness :
+  seq_results P_prefix_unzips 0 remote0 [(OStore 0 0, Some (LWrite 1, KCrash)); (OClean, None); (OFetch, None)]
+  = [(RCrashed, DUntouched); (ROk, DUntouched); (ROk, DInst 7)].
+Proof. vm_compute. reflexivity. Qed.
+
+(* non-vacuity: three clients interleaved at micro-step granularity in the immutable cache; the Fetch succeeds *)
+Definition nv_ops : list opk := [OStore 0 0; OStore 1 1; OFetch].
+Definition nv_sched : list label :=
+  steps 0 4 ++ steps 1 3 ++ steps 0 20 ++ steps 2 3 ++ steps 1 2 ++ steps 2 20 ++ steps 1 20.
+Lemma nonvacuous_interleaving :
+  let P := P_of Immutable false true in
+  let st := run P (init_state P nv_ops) nv_sched in
+  map c_pc (s_cl st) = [Done Ok; Done Ok; Done Ok] /\ option_map c_dest (nth_error (s_cl st) 2) = Some (DInst 0).
+Proof. vm_compute. split; reflexivity. Qed.
